@@ -56,14 +56,14 @@ def run(seed):
         # deciding every interleaving (sessim/src/session.rs run_concurrent): a lockstep pass (barrier before every
         # item), a free-running pass, then one thread alone
         threads, conc_seeds = 3, 14
-        rc, obs2, n2, ub2, out2 = miri((0, conc_seeds), seed, 0, preempt="0.1", timeout=6000, concurrent=threads)
+        rc, obs2, n2, ub2, out2 = miri((0, conc_seeds), seed, 0, preempt="0.9", timeout=6000, concurrent=threads)
         if ub2:
             raise Harness("Miri reported undefined behaviour / a data race in the concurrent phase:\n" + out2[-3000:])
         n_items = len(obs2)
         exp2 = conc_seeds * (threads * (n_items + (n_items + 2) // 3) + n_items)
         if n2 != exp2 or n_items == 0:
             raise Harness("Miri concurrent phase produced %d of %d observations (rc=%d):\n%s" % (n2, exp2, rc, out2[-3000:]))
-        res["concurrent_phase"] = {"miri_seeds": conc_seeds, "threads": threads, "items": n_items, "observations": n2, "preemption_rate": 0.1,
+        res["concurrent_phase"] = {"miri_seeds": conc_seeds, "threads": threads, "items": n_items, "observations": n2, "preemption_rate": 0.9,
                                    "passes": ["lockstep (barrier before every item)", "free running (own order per thread)", "one thread alone afterwards"]}
         res["observations"] += n2
         bad2 = {k: sorted(v) for k, v in obs2.items() if len(v) > 1}
@@ -71,7 +71,7 @@ def run(seed):
             path = os.path.join(REPLAYS, "C19-%d-a2-concurrent.json" % seed)
             json.dump({"property": "C19", "engine": "sessim", "layer": "A2-miri", "phase": "concurrent", "seed": seed, "threads": threads, "miri_seeds": [0, conc_seeds],
                        "what": "observations of one key differ when several threads expand at the same time (or afterwards): %s" % json.dumps(bad2)[:600],
-                       "command": "cd /verif/sessim && MIRIFLAGS='-Zmiri-many-seeds=0..%d -Zmiri-many-seeds-keep-going -Zmiri-preemption-rate=0.1' cargo +nightly miri run --offline -- miri-concurrent --seed %d --threads %d" % (conc_seeds, seed, threads)},
+                       "command": "cd /verif/sessim && MIRIFLAGS='-Zmiri-many-seeds=0..%d -Zmiri-many-seeds-keep-going -Zmiri-preemption-rate=0.9' cargo +nightly miri run --offline -- miri-concurrent --seed %d --threads %d" % (conc_seeds, seed, threads)},
                       open(path, "w"), indent=1)
             res["violations"].append({"replay": path, "what": "expansion text depends on what another thread expands at the same time (Miri-scheduled interleaving)"})
     res["run_s"] = time.time() - t0
@@ -82,7 +82,7 @@ def replay(path):
     rp = json.load(open(path))
     lo, hi = rp["miri_seeds"]
     if rp.get("phase") == "concurrent":
-        rc, obs, n, ub, out = miri((lo, hi), rp["seed"], 0, preempt="0.1", timeout=6000, concurrent=rp["threads"])
+        rc, obs, n, ub, out = miri((lo, hi), rp["seed"], 0, preempt="0.9", timeout=6000, concurrent=rp["threads"])
     else:
         rc, obs, n, ub, out = miri((lo, hi), rp["seed"], rp["items"])
     bad = {k: sorted(v) for k, v in obs.items() if len(v) > 1}
